@@ -141,11 +141,15 @@ pub struct EnvPlan {
     /// (ordinal of the sink among sinks, bytes accepted before the process dies)
     #[serde(default)]
     pub crash: Option<u64>,
+    /// Sinks and chunks buffer what they accept and make it durable (and readable) only at
+    /// flush, like a BufWriter whose flush is never implied.
+    #[serde(default)]
+    pub buffered: bool,
 }
 
 impl EnvPlan {
     pub fn whole() -> EnvPlan {
-        EnvPlan { modes: vec![IoMode::Whole], stream: 0, faults: vec![], crash: None }
+        EnvPlan { modes: vec![IoMode::Whole], stream: 0, faults: vec![], crash: None, buffered: false }
     }
     pub fn is_whole(&self) -> bool {
         self.modes.iter().all(|m| *m == IoMode::Whole)
@@ -365,10 +369,17 @@ pub struct SimFile {
     pos: u64,
     mode: IoMode,
     rng: Rng,
+    /// accepted but not yet flushed bytes (buffered sinks/chunks only); they logically follow `data`
+    pending: Vec<u8>,
+    buffered: bool,
 }
 
 impl SimFile {
     fn create(env: &Env, role: Role, bytes: Vec<u8>) -> SimFile {
+        let buffered = {
+            let e = env.0.borrow();
+            e.plan.buffered && e.plan.crash.is_none() && role != Role::Source
+        };
         let (id, mode, seed) = {
             let mut e = env.0.borrow_mut();
             let id = e.next_file;
@@ -382,7 +393,17 @@ impl SimFile {
             }
             (id, e.mode_for(id), mix(e.plan.stream, (id as u64) << 20 | e.handle_ctr))
         };
-        SimFile { env: env.clone(), id, role, data: Rc::new(RefCell::new(bytes)), pos: 0, mode, rng: Rng::new(seed) }
+        SimFile {
+            env: env.clone(),
+            id,
+            role,
+            data: Rc::new(RefCell::new(bytes)),
+            pos: 0,
+            mode,
+            rng: Rng::new(seed),
+            pending: Vec::new(),
+            buffered,
+        }
     }
 
     pub fn bytes(&self) -> Vec<u8> {
@@ -438,6 +459,8 @@ impl Clone for SimFile {
             pos: self.pos,
             mode: self.mode,
             rng: Rng::new(seed),
+            pending: Vec::new(),
+            buffered: false,
         }
     }
 }
@@ -530,6 +553,17 @@ impl Write for SimFile {
         if let Some(p) = e.split_probe.as_mut() {
             p(self.id, off, n as u64);
         }
+        let appending = self.pos as usize == self.data.borrow().len() + self.pending.len();
+        if self.buffered && appending {
+            crate::alloc::storage_scope(|| self.pending.extend_from_slice(&buf[..n]));
+            if self.role == Role::Chunk {
+                e.chunk_bytes_written += n as u64;
+            }
+            self.pos += n as u64;
+            e.fx.inc("fired.buffered_write");
+            e.log(IoEvent { file: self.id, kind: IoKind::Write, off, req: buf.len() as u64, out: n as i64 });
+            return Ok(n);
+        }
         crate::alloc::storage_scope(|| {
             let mut data = self.data.borrow_mut();
             let pos = self.pos as usize;
@@ -556,6 +590,11 @@ impl Write for SimFile {
             e.log(IoEvent { file: self.id, kind: IoKind::Flush, off: self.pos, req: 0, out: -2 });
             return Err(Self::fault_err(io_kind_for(f.err, IoKind::Flush), f.k));
         }
+        if !self.pending.is_empty() {
+            let pending = std::mem::take(&mut self.pending);
+            crate::alloc::storage_scope(|| self.data.borrow_mut().extend_from_slice(&pending));
+            e.fx.inc("fired.flush_made_data_durable");
+        }
         e.log(IoEvent { file: self.id, kind: IoKind::Flush, off: self.pos, req: 0, out: 0 });
         Ok(())
     }
@@ -575,7 +614,7 @@ impl Seek for SimFile {
             e.log(IoEvent { file: self.id, kind: IoKind::Seek, off: arg, req: code, out: -2 });
             return Err(Self::fault_err(io_kind_for(f.err, IoKind::Seek), f.k));
         }
-        let len = self.data.borrow().len() as i128;
+        let len = (self.data.borrow().len() + self.pending.len()) as i128;
         let target: i128 = match to {
             SeekFrom::Start(x) => x as i128,
             SeekFrom::End(x) => len + x as i128,
